@@ -265,3 +265,43 @@ Theorem C06_mag_constructor : forall cMpc cc cday carc a0 a1 c00 c01 c10 c11 mu0
     (mag_obj a0 a1 c00 c01 c10 c11 mu0 mu1 q00 q01 q10 q11 zp) cu [].
 Proof. intros. apply mag_ctor. Qed.
 Print Assumptions C06_mag_constructor.
+
+(* THE IFU KINEMATICS LIKELIHOOD FOR ANY NUMBER OF BINS (KinN.v, Py.ArrN).  For every n >= 1, every measurement vector, J-model vector and scaling
+   vector of length n, every n x n measurement and sqrt(J) covariance, and whatever n x n matrix / log-determinant numpy.linalg returns:
+   KinLikelihood.log_likelihood hands to numpy.linalg.inv EXACTLY the matrix covN and returns -delta^T P delta / 2 (un-normalised) resp. that minus
+   (n ln 2 pi + ln det) / 2 (normalised) - and nothing else; the decisions taken on the way are exactly: every j_i * Ds/Dds * s_i and every s_i is
+   >= 0 (under the square roots), dd <> 0, 1 + z_lens <> 0.  C06_kin_entries spells delta and covN out entry by entry:
+   delta_i = v_i - c/1000 * sqrt(j_i * Ds/Dds * s_i),  C_ij = M_ij + Q_ij * sqrt(s_i) sqrt(s_j) * Ds/Dds * (c/1000)^2  with Ds/Dds = max(ddt/dd/(1+z), 0). *)
+Require Import Py.Sym Py.ArrN C06.KinN.
+Theorem C06_kin_any_number_of_bins : forall (C zl : R) (vs js : list R) (Mm Qm Pm : list (list R)) (L : R) (normalized : bool) (ddt dd : R) (ks : list R) rg cu (n : nat),
+  length js = n -> length ks = n -> length vs = n -> length Mm = n -> length Qm = n -> length Pm = n -> wf n Mm -> wf n Qm -> wf n Pm -> n <> 0%nat ->
+  exists w',
+    call (GN C Pm L) 200 (CFun src_KinLikelihood_log_likelihood) (Some (objN zl vs js Mm Qm normalized)) [snum ddt; snum dd] [("kin_scaling", vecR ks)]
+         (World rg cu [] (dsN n normalized) [])
+    = Ok (snum (if normalized then - quadN C zl vs js Pm ddt dd ks / 2 + - (1 / 2 * (IZR (Z.of_nat (length js)) * ln (2 * PI) + L))
+                else - quadN C zl vs js Pm ddt dd ks / 2), w')
+    /\ decs w' = [] /\ olog w' = [("inv", [matR (covN C zl Mm Qm ddt dd ks)])]
+    /\ (holds (pc w') <-> (Forall (fun x => 0 <= x) (map2R (fun x y => x * y) (mapR (fun x => x * dsd zl ddt dd) js) ks) /\ Forall (fun x => 0 <= x) ks
+                           /\ dd <> 0 /\ 1 + zl <> 0)).
+Proof. intros C zl vs js Mm Qm Pm L normalized. exact (kin_run C zl vs js Mm Qm Pm L normalized). Qed.
+Print Assumptions C06_kin_any_number_of_bins.
+Theorem C06_kin_entries : forall (C zl : R) (vs js : list R) (Mm Qm : list (list R)) (ddt dd : R) (ks : list R) (n i j : nat),
+  length js = n -> length ks = n -> length vs = n -> length Mm = n -> length Qm = n -> wf n Mm -> wf n Qm -> (i < n)%nat -> (j < n)%nat ->
+  nth i (deltaN C zl vs js ddt dd ks) 0 = nth i vs 0 + - (sqrt (nth i js 0 * dsd zl ddt dd * nth i ks 0) * C / 1000)
+  /\ nth j (nth i (covN C zl Mm Qm ddt dd ks) []) 0 =
+     nth j (nth i Mm []) 0 + nth j (nth i Qm []) 0 * (sqrt (nth i ks 0) * sqrt (nth j ks 0)) * dsd zl ddt dd * (C / 1000) ^ 2.
+Proof.
+  intros. split; [eapply deltaN_entry; eassumption | eapply covN_entry; eassumption].
+Qed.
+Print Assumptions C06_kin_entries.
+(* non-vacuity: three bins with concrete numbers satisfy the hypotheses and the recorded decisions *)
+Example C06_kin_any_number_nonvacuous :
+  let js := [1; 2; 3] in let ks := [1; 1; 1] in
+  (length js = 3%nat /\ length ks = 3%nat /\ wf 3 [[1;0;0];[0;1;0];[0;0;1]] /\ 3%nat <> 0%nat)
+  /\ Forall (fun x => 0 <= x) (map2R (fun x y => x * y) (mapR (fun x => x * dsd 0 2 1) js) ks) /\ Forall (fun x => 0 <= x) ks /\ 1 <> 0 /\ 1 + 0 <> 0.
+Proof.
+  cbv zeta. split; [repeat split; try reflexivity; [repeat constructor | discriminate] |].
+  assert (Hd : 0 <= dsd 0 2 1) by (unfold dsd; apply Rmax_r).
+  split; [ | split; [repeat (constructor; [lra|]); constructor | split; lra]].
+  unfold map2R, map2, mapR. cbn [map combine fst snd]. repeat (constructor; [nra|]). constructor.
+Qed.
